@@ -49,6 +49,19 @@ func vEncDec(c *vCtx, enc *Encryptor, level int, tag string) {
 		// the small encryption randomness u; with independent samples it is a uniform-looking element.
 		vAssert(!vQuotientIsSmall(rQ, ct, pt, pk), tag+"-components-carry-independent-error-samples")
 	}
+	// public-key encryption: the second component is u·pk1 plus a sample of the error distribution (not of another one)
+	if pk, ok := enc.encKey.(*PublicKey); ok {
+		id := tag + "-second-component-carries-a-sample-of-the-error-distribution"
+		if vIsAlgebraic() {
+			ok := true
+			for k, s := range rQ.SubRings[:level+1] {
+				ok = ok && vEverySlotHasClass(ct.Value[1].Coeffs[k], s.Modulus, vError)
+			}
+			vAssert(ok, id)
+		} else if params.PCount() == 0 {
+			vAssert(vSecondComponentErrorLooksLikeXe(params, pk, level), id)
+		}
+	}
 	// wrong key: the uniform part must survive
 	out2 := NewPlaintext(params, level)
 	c.Dec2.Decrypt(ct, out2)
@@ -204,6 +217,50 @@ func vEncVariants(c *vCtx, level int, tag string) {
 			vAssertNoiseFree(rQ, d, z, false, 30, name+"-error-of-a-fresh-encryption-is-the-sampled-error-itself")
 		}
 	}
+	// public-key encryption of a plaintext in Montgomery representation (both components are converted)
+	{
+		name := tag + "-pk-montgomery-plaintext"
+		pt := NewPlaintext(params, level)
+		vFillAtoms(rQ, pt.Value, "m", vMessage)
+		pt.IsMontgomery = true
+		ct := NewCiphertext(params, 1, level)
+		vAssert(c.EncPk.Encrypt(pt, ct) == nil, name+"-Encrypt-no-error")
+		out := NewPlaintext(params, level)
+		c.Dec.Decrypt(ct, out)
+		vAssert(out.IsMontgomery && out.IsNTT == pt.IsNTT, name+"-representation-flags-kept")
+		d := rQ.NewPoly()
+		rQ.Sub(out.Value, pt.Value, d)
+		if pt.IsNTT {
+			rQ.INTT(d, d)
+		}
+		rQ.IMForm(d, d)
+		vAssertNoiseFree(rQ, d, rQ.NewPoly(), false, 30, name+"-Dec-of-Enc-is-plaintext-up-to-noise")
+	}
+	// decryption of a degree-2 ciphertext (c0 - r·s^2, c1, r): the phase is c0 + c1·s + c2·s^2
+	{
+		name := tag + "-degree-2"
+		pt := NewPlaintext(params, level)
+		vFillAtoms(rQ, pt.Value, "m", vMessage)
+		ct1 := NewCiphertext(params, 1, level)
+		vAssert(c.EncSk.Encrypt(pt, ct1) == nil, name+"-Encrypt-no-error")
+		ct := NewCiphertext(params, 2, level)
+		*ct.MetaData = *ct1.MetaData
+		ct.Value[1].Copy(ct1.Value[1])
+		vFillAtoms(rQ, ct.Value[2], "r", vUniform)
+		rs2 := *ct.Value[2].CopyNew()
+		if !ct.IsNTT {
+			rQ.NTT(rs2, rs2)
+		}
+		rQ.MulCoeffsMontgomery(rs2, c.Sk.Value.Q, rs2)
+		rQ.MulCoeffsMontgomery(rs2, c.Sk.Value.Q, rs2)
+		if !ct.IsNTT {
+			rQ.INTT(rs2, rs2)
+		}
+		rQ.Sub(ct1.Value[0], rs2, ct.Value[0])
+		out := NewPlaintext(params, level)
+		c.Dec.Decrypt(ct, out)
+		vAssertNoiseFree(rQ, out.Value, pt.Value, params.NTTFlag(), 30, name+"-ciphertext-decrypts-to-the-plaintext-up-to-noise")
+	}
 	if level < params.MaxLevel() {
 		for ei, enc := range []*Encryptor{c.EncSk, c.EncPk} {
 			name := tag + []string{"-sk", "-pk"}[ei] + "-ciphertext-allocated-above-the-plaintext-level"
@@ -267,4 +324,57 @@ func vQuotientIsSmall(rQ *ring.Ring, ct *Ciphertext, pt *Plaintext, pk *PublicKe
 		}
 	}
 	return true
+}
+
+// vSecondComponentErrorLooksLikeXe (native, parameters without auxiliary primes): the samplers of a copy of the encryptor
+// are put on a keyed generator, a replica regenerates the encryption randomness u (the first draw), and
+// e1 = c1 - u·pk1 must be within the bound of Xe and must not be a ternary polynomial.
+func vSecondComponentErrorLooksLikeXe(params Parameters, pk *PublicKey, level int) bool {
+	rQ := params.RingQ().AtLevel(level)
+	for try := 0; try < 4; try++ {
+		key := "c03-e1-" + vItoa(level) + "-" + vItoa(try)
+		p1, p2 := VerifSetup_KeyedPRNGC03(key), VerifSetup_KeyedPRNGC03(key)
+		enc := NewEncryptor(params, pk)
+		var err error
+		if enc.xsSampler, err = ring.NewSampler(p1, params.RingQ(), params.Xs(), false); err != nil {
+			panic(err)
+		}
+		if enc.xeSampler, err = ring.NewSampler(p1, params.RingQ(), params.Xe(), false); err != nil {
+			panic(err)
+		}
+		xs2, err := ring.NewSampler(p2, params.RingQ(), params.Xs(), false)
+		if err != nil {
+			panic(err)
+		}
+		ct := NewCiphertext(params, 1, level)
+		if enc.EncryptZero(ct) != nil {
+			return false
+		}
+		u := xs2.AtLevel(level).ReadNew()
+		rQ.NTT(u, u)
+		w := rQ.NewPoly()
+		rQ.MulCoeffsMontgomery(u, pk.Value[1].Q, w)
+		e1 := *ct.Value[1].CopyNew()
+		if !ct.IsNTT {
+			rQ.NTT(e1, e1)
+		}
+		rQ.Sub(e1, w, e1)
+		rQ.INTT(e1, e1)
+		bound := uint64(params.NoiseBound()) + 1
+		ternary := true
+		for k, s := range rQ.SubRings[:level+1] {
+			for _, v := range e1.Coeffs[k] {
+				if v > bound && v < s.Modulus-bound {
+					return false
+				}
+				if v > 1 && v < s.Modulus-1 {
+					ternary = false
+				}
+			}
+		}
+		if !ternary {
+			return true
+		}
+	}
+	return false
 }
